@@ -239,6 +239,15 @@ def check_large(case, ctx):
         back = conv.ravel_index(want)
         ctx.check(back == lin, "C01.ravel",
                   lambda: f"ravel_index({want!r}) on a {ny} x {nx} grid = {back!r}, expected {lin}")
+        # the same native index handed over as narrow numpy integers (what indexing an int16 /
+        # int32 index table gives): the answer is the same number
+        for np_type in (numpy.int16, numpy.int32, numpy.uint8):
+            if max(want) <= numpy.iinfo(np_type).max:
+                typed = tuple(np_type(c) for c in want)
+                back = conv.ravel_index(typed)
+                ctx.check(int(back) == lin, "C01.ravel",
+                          lambda: f"ravel_index({typed!r}) ({np_type.__name__} components) on a "
+                          f"{ny} x {nx} grid = {back!r}, expected {lin}")
     for lin in case["outside"]:
         ctx.at("C01.reject_linear")
         ctx.raises("C01.reject_linear", lambda: conv.wind_index(lin, grid_kind=kind),
